@@ -4,6 +4,8 @@ The language of PAT_EVENT_CODE is enumerated from its syntax tree (all structura
 covering scheme).  For every code: normalise -> accepted, no whitespace, idempotent, same families; spelling
 variants (case, spacing, unit suffix, trailing zeros) normalise identically; near misses are refused with ValueError."""
 import re, itertools
+from vlib import concpass
+from checks import crossapi
 from vlib import common, rxmc
 from vlib import orderpass
 from vlib.common import Report, Violation, HarnessError, Acc, pmap, merge
@@ -248,10 +250,14 @@ def run(tier):
              'DT1.5K', 'JT800', 'jt800g', 'MAR W', 'mar', 'Mar', 'MILE', 'mile', 'MILe', '2000SC84cm', 'sc', 'SC', 'HJ', 'hj', 'XYZ', '']
     oc = [(U + 'normalize_event_code', (c,)) for c in codes] + [(U + 'check_event_code', (c,)) for c in codes[:16]]
     orderpass.part(rep, oc, 'normalisation call-order pass')
+    crossapi.part(rep, PID, tier)
+    concpass.part(rep, PID, tier)
     return rep.finish()
 
 
 def replay(rec):
+    if concpass.is_conc(rec):
+        return concpass.replay(rec)
     U = common.mod('athlib.utils')
     for k in ('code', 'variant', 'string'):
         s = rec['case'].get(k)
